@@ -7,6 +7,7 @@ VERIF = os.path.dirname(os.path.dirname(os.path.abspath(__file__)))
 REPO = os.environ.get("VERIF_REPO", "/repo")
 LEAN = os.path.join(VERIF, "lean")
 HARNESS = os.path.join(VERIF, "harness")
+BINDIR = os.path.join(HARNESS, "bin")
 ALLOWED_AXIOMS = {"propext", "Classical.choice", "Quot.sound"}
 
 import registry
@@ -46,52 +47,67 @@ def run(cmd, cwd=None, env=None, timeout=None, stdin=None, stdout=subprocess.PIP
         return 124, out + "\n[timeout]", time.time() - t0
 
 
-def build_harness(log):
-    """go build -tags verif of the harness against /repo's working tree."""
-    bindir = os.path.join(HARNESS, "bin")
-    os.makedirs(bindir, exist_ok=True)
-    # go.sum of /repo may have changed
-    try:
-        shutil.copyfile(os.path.join(REPO, "go.sum"), os.path.join(HARNESS, "go.sum"))
-    except OSError:
-        pass
-    rc, out, dt = run(["go", "build", "-tags", "verif", "-o", bindir + "/", "./cmd/..."],
+def build_harness(log, engines=(), facts=()):
+    """go build -tags verif of the fact and engine binaries against the repository's working tree.
+    The harness module replaces github.com/diskfs/go-diskfs with /repo; when VERIF_REPO points
+    elsewhere (a scratch worktree carrying a candidate change) an alternate go.mod is used."""
+    global BINDIR
+    pkgs = [f"./cmd/vf-{g}" for g in facts] + [f"./cmd/vh-{e}" for e in engines]
+    if not pkgs:
+        return True, ""
+    extra = []
+    if os.path.realpath(REPO) != "/repo":
+        BINDIR = tempfile.mkdtemp(prefix="verif-altbin-")
+        alt = os.path.join(BINDIR, "alt.mod")
+        mod = open(os.path.join(HARNESS, "go.mod")).read().replace("=> /repo", "=> " + os.path.realpath(REPO))
+        open(alt, "w").write(mod)
+        shutil.copyfile(os.path.join(REPO, "go.sum"), os.path.join(BINDIR, "alt.sum"))
+        extra = ["-modfile", alt]
+    else:
+        BINDIR = os.path.join(HARNESS, "bin")
+        os.makedirs(BINDIR, exist_ok=True)
+        try:
+            shutil.copyfile(os.path.join(REPO, "go.sum"), os.path.join(HARNESS, "go.sum"))
+        except OSError:
+            pass
+    rc, out, dt = run(["go", "build"] + extra + ["-tags", "verif", "-o", BINDIR + "/"] + pkgs,
                       cwd=HARNESS, env=goenv(), timeout=900)
     log.append(f"[harness build rc={rc} {dt:.1f}s]\n{out}")
     return rc == 0, out
 
 
-def run_vfacts(log):
-    """regenerate lean/DiskfsModel/Generated/*.lean from /repo (write only on change)."""
+def run_vfacts(log, groups=()):
+    """regenerate lean/DiskfsModel/Generated/<Group>.lean for each fact group from /repo
+    (the old file is replaced; untouched when the content is identical so lake need not rebuild)."""
     gen = os.path.join(LEAN, "DiskfsModel", "Generated")
-    tmp = tempfile.mkdtemp(prefix="vfacts")
-    try:
-        env = goenv()
-        rc, out, dt = run([os.path.join(HARNESS, "bin", "vfacts"), "-repo", REPO, "-out", tmp],
-                          cwd=HARNESS, env=env, timeout=300)
-        log.append(f"[vfacts rc={rc} {dt:.1f}s]\n{out}")
-        if rc != 0:
-            return False, out, {}
-        os.makedirs(gen, exist_ok=True)
-        new = sorted(f for f in os.listdir(tmp) if f.endswith(".lean"))
-        # delete stale generated files, replace changed ones
-        for f in os.listdir(gen):
-            if f.endswith(".lean") and f not in new:
-                os.remove(os.path.join(gen, f))
-        for f in new:
-            src, dst = os.path.join(tmp, f), os.path.join(gen, f)
-            a = open(src).read()
-            b = open(dst).read() if os.path.exists(dst) else None
-            if a != b:
-                with open(dst, "w") as fh:
-                    fh.write(a)
-        facts = {}
-        fj = os.path.join(tmp, "facts.json")
-        if os.path.exists(fj):
-            facts = json.load(open(fj))
-        return True, out, facts
-    finally:
-        shutil.rmtree(tmp, ignore_errors=True)
+    os.makedirs(gen, exist_ok=True)
+    facts = {}
+    allout = ""
+    for g in groups:
+        tmp = tempfile.mkdtemp(prefix="vfacts")
+        try:
+            rc, out, dt = run([os.path.join(BINDIR, "vf-" + g), "-repo", REPO, "-out", tmp],
+                              cwd=HARNESS, env=goenv(), timeout=300)
+            log.append(f"[vf-{g} rc={rc} {dt:.1f}s]\n{out}")
+            allout += out
+            if rc != 0:
+                return False, allout, facts
+            for f in os.listdir(tmp):
+                src = os.path.join(tmp, f)
+                if f.endswith(".lean"):
+                    dst = os.path.join(gen, f)
+                    a = open(src).read()
+                    b = open(dst).read() if os.path.exists(dst) else None
+                    if a != b:
+                        if os.path.exists(dst):
+                            os.remove(dst)
+                        with open(dst, "w") as fh:
+                            fh.write(a)
+                elif f.endswith(".facts.json"):
+                    facts[f[:-len(".facts.json")]] = json.load(open(src))
+        finally:
+            shutil.rmtree(tmp, ignore_errors=True)
+    return True, allout, facts
 
 
 def lake_build(targets, log, timeout=3000):
@@ -236,15 +252,18 @@ def check_property(prop, tier, seed, only=None):
     try:
         # ---- 1. build from /repo's working tree -------------------------------
         with locked():
-            hok, hout = build_harness(log)
+            enames = [e["name"] for e in spec["engines"]]
+            drivers = sorted({e["driver"] for e in spec["engines"] if e.get("driver")})
+            fgroups = spec.get("facts", [])
+            hok, hout = build_harness(log, enames, fgroups)
             fok = False
             if hok:
-                fok, fout, facts = run_vfacts(log)
+                fok, fout, facts = run_vfacts(log, fgroups)
                 if not fok:
                     problems.append(("facts", "vfacts failed: " + fout[-800:]))
             else:
                 problems.append(("harness-build", "harness does not build against /repo with -tags verif: " + hout[-1500:]))
-            targets = [f"DiskfsModel.Props.{prop}", "vdriver"]
+            targets = [f"DiskfsModel.Props.{prop}"] + drivers
             pok, pout = lake_build(targets, log)
             if not pok:
                 # which theorem / agreement lemma broke?
@@ -259,21 +278,18 @@ def check_property(prop, tier, seed, only=None):
             if hits:
                 problems.append(("forbidden", "forbidden construct in Lean sources: " + "; ".join(hits[:5])))
             # private copies of the binaries so concurrent checks cannot disturb this run
-            vh = os.path.join(scratch, "vharness")
-            vd = os.path.join(scratch, "vdriver")
+            bins = {}
             if hok:
-                shutil.copy2(os.path.join(HARNESS, "bin", "vharness"), vh)
-            have_driver = False
-            drv = os.path.join(LEAN, ".lake", "build", "bin", "vdriver")
-            if pok and os.path.exists(drv):
-                shutil.copy2(drv, vd)
-                have_driver = True
-            else:
-                # try to build the driver alone: the model may still be executable
-                dok, _ = lake_build(["vdriver"], log)
-                if dok and os.path.exists(drv):
-                    shutil.copy2(drv, vd)
-                    have_driver = True
+                for e in enames:
+                    shutil.copy2(os.path.join(BINDIR, "vh-" + e), os.path.join(scratch, "vh-" + e))
+            if not pok and drivers:
+                # the model may still be executable although a proof broke
+                lake_build(drivers, log)
+            for dname in drivers:
+                drv = os.path.join(LEAN, ".lake", "build", "bin", dname)
+                if os.path.exists(drv):
+                    shutil.copy2(drv, os.path.join(scratch, dname))
+                    bins[dname] = os.path.join(scratch, dname)
         leanchecker = None
         if tier == "thorough" and pok:
             rc, out, dt = run(["lake", "env", "leanchecker", f"DiskfsModel.Props.{prop}"], cwd=LEAN, timeout=3000)
@@ -291,10 +307,12 @@ def check_property(prop, tier, seed, only=None):
                 tmo = eng.get("timeout", {}).get(tier, 1500 if tier == "quick" else 7200)
                 escr = os.path.join(scratch, "e-" + ename)
                 os.makedirs(escr, exist_ok=True)
-                cmd = [vh, "--seed", str(seed), "--tier", tier, "--scratch", escr]
+                cmd = [os.path.join(scratch, "vh-" + ename), "--seed", str(seed), "--tier", tier, "--scratch", escr]
                 if only:
                     cmd += ["--only", only]
-                cmd += [ename] + [f"{k}={v}" for k, v in eargs.items()]
+                cmd += [f"{k}={v}" for k, v in eargs.items()]
+                vd = bins.get(eng.get("driver"))
+                have_driver = vd is not None
                 env = dict(os.environ)
                 env["TMPDIR"] = escr
                 env.setdefault("GOMEMLIMIT", "24GiB")
@@ -328,7 +346,7 @@ def check_property(prop, tier, seed, only=None):
                         if mrc != 0:
                             problems.append(("driver", f"vdriver failed rc={mrc}: {mout[-500:]}"))
                     else:
-                        problems.append(("driver", "vdriver could not be built; correspondence not checked"))
+                        problems.append(("driver", f"model driver {eng.get('driver')} could not be built; correspondence not checked"))
                 for cid, iv in r["impl"].items():
                     mv = model.get(cid)
                     if have_driver and mv != iv:
@@ -396,7 +414,7 @@ def check_property(prop, tier, seed, only=None):
             known_findings_reproduced=sorted(seen_known),
             input_distribution={k: v for k, v in sorted(agg["stats"].items())},
             engines=agg["engines"],
-            regenerated_facts=facts.get(prop, facts.get("_all", {})) if isinstance(facts, dict) else {},
+            regenerated_facts=facts,
             broken_ties=[dict(kind=k, what=w[:500]) for k, w in problems],
         )
         if leanchecker:
@@ -418,20 +436,26 @@ def check_property(prop, tier, seed, only=None):
         return 1 if violation else 0
     finally:
         shutil.rmtree(scratch, ignore_errors=True)
+        if BINDIR.startswith(tempfile.gettempdir()) and "verif-altbin-" in BINDIR:
+            shutil.rmtree(BINDIR, ignore_errors=True)
 
 
 def setup():
     log = []
     with locked():
-        ok, out = build_harness(log)
+        enames = sorted({e["name"] for s in registry.PROPS.values() for e in s["engines"]})
+        drivers = sorted({e["driver"] for s in registry.PROPS.values() for e in s["engines"] if e.get("driver")})
+        fgroups = sorted({g for s in registry.PROPS.values() for g in s.get("facts", [])})
+        ok, out = build_harness(log, enames, fgroups)
         if not ok:
             print(out)
             return 1
-        ok, out, _ = run_vfacts(log)
+        ok, out, _ = run_vfacts(log, fgroups)
         if not ok:
             print(out)
             return 1
-        ok, out = lake_build(["DiskfsModel", "vdriver"], log, timeout=6000)
+        targets = [f"DiskfsModel.Props.{p}" for p in sorted(registry.PROPS)] + ["DiskfsModel.Audit.Common"] + drivers
+        ok, out = lake_build(targets, log, timeout=6000)
         if not ok:
             print(out[-5000:])
             return 1
